@@ -9,8 +9,8 @@ import time
 from . import core
 
 
-BUDGET = dict(quick=int(os.environ.get('VERIF_QUICK_BUDGET', '240')),
-              thorough=int(os.environ.get('VERIF_THOROUGH_BUDGET', '2400')))
+BUDGET = dict(quick=int(os.environ.get('VERIF_QUICK_BUDGET', '600')),
+              thorough=int(os.environ.get('VERIF_THOROUGH_BUDGET', '3600')))
 
 
 def main(argv=None):
